@@ -91,6 +91,10 @@ type Config struct {
 	// TimerRace: a due-soonest timer may fire while threads are still enabled
 	// (one more alternative, costs a deviation).
 	TimerRace bool
+	// Frozen, if set and returning true, makes every scheduling / environment
+	// choice (everything but ChooseFree) take its default without becoming a
+	// choice point: a setup phase that runs on the default schedule only.
+	Frozen func() bool
 }
 
 // Exec is the state of one execution.
@@ -405,6 +409,9 @@ func (x *Exec) pick() *thread {
 }
 
 func (x *Exec) choose(n int, cost bool, label string, thread bool) int {
+	if (cost || thread) && x.cfg.Frozen != nil && x.cfg.Frozen() {
+		return 0
+	}
 	k := x.chooser(n, cost, label)
 	if k < 0 || k >= n {
 		x.Diverged = fmt.Sprintf("choice %d out of range %d at point %d (%s)", k, n, len(x.Trace), label)
@@ -569,7 +576,12 @@ var tokenFeed chan struct{}
 
 func tokens() <-chan struct{} {
 	if tokenFeed == nil {
-		tokenFeed = make(chan struct{})
+		// buffered: a probe of the real channel finds tokens even if the feeder goroutine
+		// has not been scheduled since the last one was taken (loaded machine)
+		tokenFeed = make(chan struct{}, 256)
+		for i := 0; i < cap(tokenFeed); i++ {
+			tokenFeed <- struct{}{}
+		}
 		go func() { // real feeder goroutine, outside the controlled world: a token is always available
 			for {
 				tokenFeed <- struct{}{}
